@@ -108,6 +108,11 @@ type fnEnc struct {
 	lastStoreVal ssa.Value
 	lastPre  map[string]string
 	capVal   map[*ssa.FreeVar]Term
+	// inlining of small uncontracted repo callees (inline.go)
+	rootFn    *ssa.Function
+	inlDepth  int
+	inlPrefix string
+	inlRets   *[]inlRet
 }
 
 func (e *fnEnc) fresh(prefix, sort string) string {
@@ -221,6 +226,7 @@ func (U *Universe) typeFactsOf(t Term, depth int) []string {
 // ---------------------------------------------------------------------------
 
 func (e *fnEnc) oblig(kind, name string, props []string, guard, goal string, pos token.Pos) *Oblig {
+	name = e.inlPrefix + name
 	e.counters[kind+":"+name]++
 	full := fmt.Sprintf("%s#%s:%s", e.key, kind, name)
 	if c := e.counters[kind+":"+name]; c > 1 {
